@@ -5,10 +5,10 @@ use std::sync::Arc;
 use simcorpus::{dispatch, Ctx, Entry, VARIANTS};
 
 const INPUTS: &[(&str, &[&str])] = &[
-    ("stmt", &["a.b[1]=c+2*d;", "call f(1,2);", "a+;", "((a));"]),
+    ("stmt", &["a.b[1]=c+2*d;", "call f(1,2);", "a+;", "((a));", "a     =   b    +       c ;", "call      f(  1 ,      2 );"]),
     ("anbn", &["aabb.", "aabc.", "aab."]),
     ("twins", &["ab:c1,d", "a:b:c", "a1,b:c"]),
-    ("calc", &["1+2*3-4/5", "(1+2)*3", "1+"]),
+    ("calc", &["1+2*3-4/5", "(1+2)*3", "1+", "1    +      2  *       3", "(     1 +  2 )       * 3"]),
     ("calc_indirect", &["1+-2*3", "-(1-2)*-3", "(1"]),
     ("hooks_pure", &["<ab>text;12 a", "!ab 12", "<abcd>long;"]),
     ("hooks_ctx", &["ab a a", "ab a a a a a a", "ab a a z"]),
@@ -18,6 +18,13 @@ const INPUTS: &[(&str, &[&str])] = &[
     ("incl", &["(a=b,c,d=e)", "(a,b=c,d)", "(a"]),
     ("names_a", &["a,b1,12", "a;b1"]),
     ("names_b", &["_x;A;3.5", "a,b1"]),
+    ("ws_mix", &["[ab cd]", "[ab cd!", "[ab      cd]   ef"]),
+    ("memo_ctx", &["a:<k> b c=d;", "use a.b.c;", "a    :   <k>     b ;"]),
+    ("memo_mix", &["#a:#b!", "[#a,#b];", "type     t =    x;"]),
+    ("shift", &["xab cd!", "xab cd?", "xab      cd    ?"]),
+    ("kw", &["select a from b", "SELECT      x     FROM y"]),
+    ("reent_nested", &["begin a=select x from y; end", "BEGIN skip;     a=abc;    End"]),
+    ("reent_plain", &["begin a=select x; end"]),
 ];
 
 struct Rng(u64);
@@ -47,14 +54,19 @@ fn run(j: &Job) -> (String, Ctx) {
 fn main() {
     let seed: u64 = std::env::args().nth(1).and_then(|s| s.parse().ok()).unwrap_or(1);
     let njobs: usize = std::env::args().nth(2).and_then(|s| s.parse().ok()).unwrap_or(20);
+    // "ws": only inputs with long whitespace runs through the built-in skipper, parsed by all threads at once
+    let mode = std::env::args().nth(3).unwrap_or_default();
     let mut rng = Rng(seed);
     let mut jobs = Vec::new();
     while jobs.len() < njobs {
         let v = &VARIANTS[(rng.next() % VARIANTS.len() as u64) as usize];
         let inputs = INPUTS.iter().find(|(g, _)| *g == v.grammar).map(|(_, i)| *i).unwrap_or(&[""]);
         let input = inputs[(rng.next() % inputs.len() as u64) as usize];
+        if mode == "ws" && !(input.contains("    ") && !["ws_pos", "ws_mix"].contains(&v.grammar)) {
+            continue;
+        }
         // parse_with_trace prints a lot; keep it to a minority of the jobs
-        let entry = match rng.next() % 8 {
+        let entry = match if mode == "ws" { 7 } else { rng.next() % 8 } {
             0 => Entry::Trace,
             1 | 2 => Entry::Noop,
             3 => Entry::Sim,
